@@ -192,7 +192,7 @@ func loadWorld(repo, verifDir string) (*world, error) {
 			w.immutable[k] = true
 		}
 	}
-	w.itfKeys = []string{"G:tbl", "G:expiresAt", "G:refreshableAt", "G:state"}
+	w.itfKeys = []string{"G:tbl", "G:calls", "G:expiresAt", "G:refreshableAt", "G:state"}
 	return w, nil
 }
 
